@@ -37,6 +37,10 @@ fn gen(d: usize) -> Vec<P> {
         out.push(Policy::And { left: Arc::clone(&shared), right: Arc::clone(&shared) });
         out.push(Policy::Or { left: Arc::clone(&shared), right: shared });
     }
+    // single-child thresholds (a legal policy: k <= n, n >= 1) over every sub-policy
+    for a in &sub {
+        out.push(Policy::Threshold(1, vec![a.clone()]));
+    }
     for a in sub.iter().take(12) {
         for b in sub.iter().take(12) {
             for c in sub.iter().take(12) {
